@@ -258,9 +258,11 @@ def parse_type(s, p):
 
 def _split_top(s):
     out, depth, cur = [], 0, ""
+    prev = ""
     for ch in s:
         if ch in "(<": depth += 1
-        if ch in ")>": depth -= 1
+        if ch in ")>" and not (ch == ">" and prev == "-"): depth -= 1          # the arrow of a function type is not a bracket
+        prev = ch
         if ch == "," and depth == 0:
             out.append(cur); cur = ""
         else:
